@@ -22,6 +22,7 @@ class ConclusionSelector(LogicalOperator, ABC):
     they are not duplicated across truth branches.
     """
     concluded_before: Dict[typing.Any, SeenSet] = field(default_factory=dict, init=False)
+    _selects_conclusions_: typing.ClassVar[bool] = True
 
     def update_conclusion(self, output: Dict[int, HashedValue], conclusions: typing.Set[Conclusion]) -> None:
         if not conclusions:
